@@ -178,4 +178,11 @@ def r4_plumbing(ctx: Ctx) -> None:
     ctx.count("plumbing", 4)
 
 
-RULES = [r1_record_kinds, r2_fields, r3_delta_and_order, r4_plumbing]
+
+def rb_binding_agreement(ctx: Ctx) -> None:
+    from ..ownership import binding_agreement
+
+    binding_agreement(ctx)
+
+
+RULES = [r1_record_kinds, r2_fields, r3_delta_and_order, r4_plumbing, rb_binding_agreement]
